@@ -210,6 +210,14 @@ def oracle(case):
         # the template itself
         tmpl = sut(read_fragments, '{#X=' + text + '}', all_atom=not coarse)['X']
         _check_attrs(dict(tmpl.nodes[case['node']]), want, 'read_fragments(%s) node %d' % (text, case['node']), False)
+        # the caller re-weights / strips the returned template in place; a later read of the same text is unaffected
+        for n in tmpl.nodes:
+            tmpl.nodes[n]['weight'] = 99.0
+            for k in list(tmpl.nodes[n]):
+                if k in given and k not in ('weight',):
+                    del tmpl.nodes[n][k]
+        tmpl2 = sut(read_fragments, '{#X=' + text + '}', all_atom=not coarse)['X']
+        _check_attrs(dict(tmpl2.nodes[case['node']]), want, 'second read_fragments(%s) after the caller edited the first result, node %d' % (text, case['node']), False)
         cg, fine = sut(lambda: MoleculeResolver.from_string(full, last_all_atom=not coarse).resolve_all())
         copies = [n for n, d in fine.nodes(data=True) if ('X', case['node']) in [tuple(m) for m in d.get('mapping', [])]]
         expect(len(copies) == case['reuse'], 'annotation:copies',
